@@ -50,6 +50,14 @@ class World:
                 names.add(nm)
         groups = ['g1', 'g 2', 'G3']
         locs = ['l1', 'L 2']
+        # a light, a group or a location may be labelled with the empty string (D63): it is a name like any other
+        if n and rng.random() < 0.1:
+            names.discard(sorted(names)[0])
+            names.add('')
+        if rng.random() < 0.1:
+            groups.append('')
+        if rng.random() < 0.1:
+            locs.append('')
         world = []
         for nm in sorted(names, key=lambda _: rng.random()):
             kind = ('plain',)
@@ -117,13 +125,16 @@ class Gen:
 
     def light_name(self):
         r = self.rng.random()
-        if self.world and r < 0.85:
-            return self.rng.choice(self.world)[0]
+        # the empty name cannot be written in a script (`on ""` is rejected): it is reached by the light loops only
+        named = [l for l in self.world if l[0]]
+        if named and r < 0.85:
+            return self.rng.choice(named)[0]
         return self.rng.choice(['nobody', 'zz top'])
 
     def group_name(self, loc=False):
-        if self.world and self.rng.random() < 0.85:
-            return self.rng.choice(self.world)[2 if loc else 1]
+        named = [l for l in self.world if l[2 if loc else 1]]
+        if named and self.rng.random() < 0.85:
+            return self.rng.choice(named)[2 if loc else 1]
         return 'no such'
 
     # ---- expressions
@@ -403,8 +414,8 @@ class Gen:
     def gen_operand(self, color):
         rng = self.rng
         r = rng.random()
-        multis = [l for l in self.world if l[3][0] == 'multi']
-        mats = [l for l in self.world if l[3][0] == 'matrix']
+        multis = [l for l in self.world if l[3][0] == 'multi' and l[0]]
+        mats = [l for l in self.world if l[3][0] == 'matrix' and l[0]]
         if color and r < 0.12 and (multis or rng.random() < 0.3):
             light = rng.choice(multis) if multis and rng.random() < 0.9 else None
             nm = light[0] if light else self.light_name()
@@ -993,6 +1004,8 @@ def scenario(rng, world, kind=None):
     holding a falsy value when it is assigned (in plain code, in a loop, in a conditional); a return out of
     loops nested in a light loop while the caller has values pending; a routine defined inside a branch that
     is not taken or a loop body; index variables of caller and callee loops."""
+    # names written into the script text are never empty (the world of the case may hold an empty label: the light loops reach it)
+    world = [l for l in world if l[0] and l[1] and l[2]]
     kind = kind or rng.choice(SCENARIO_KINDS)
     g = rng.choice(['a', 'x', 'n', 'level'])
     items = []
